@@ -448,6 +448,7 @@ func (prop) Generate(rng *core.Rand, tier string, emit func(string)) {
 	}
 	g := &gen{rng: rng.Fork()}
 	g.strOps(n*2, emit)
+	g.ggOps(n/10+20, emit)
 
 	for i := 0; i < n; i++ {
 		line := g.history(maxSteps)
@@ -504,4 +505,31 @@ func nearCopy(v any) (any, bool) {
 		}
 	}
 	return v, false
+}
+
+// ggOps: overlapping GETs on a loaded document. The first path is usually a large subtree, the
+// others smaller ones (their encodings fit the buffer the first one was encoded into) or the same
+// size with other content.
+func (g *gen) ggOps(n int, emit func(string)) {
+	for i := 0; i < n; i++ {
+		c12 := map[string]any{
+			"big":  []any{"aaaaaaaaaaaaaaaaaaaaaaaaaaaaaaaaaaaaaaaaaaaaaaaaaaaaaaaaaaaaaaaaaaaaaaaa", json.Number("1"), g.value(2), "zzzzzzzzzzzzzzzzzzzzzzzzzzzzzzzz"},
+			"same": []any{"bbbbbbbbbbbbbbbbbbbbbbbbbbbbbbbbbbbbbbbbbbbbbbbbbbbbbbbbbbbbbbbbbbbbbbbb", json.Number("2"), g.value(2), "yyyyyyyyyyyyyyyyyyyyyyyyyyyyyyyy"},
+			"s":    g.scalar(),
+			"o":    map[string]any{"@id": "ggx", "k": g.value(1)},
+		}
+		doc := map[string]any{"apps": map[string]any{"c12": c12}}
+		all := []string{"/config/", "/config/apps/c12", "/config/apps/c12/big", "/config/apps/c12/same", "/config/apps/c12/s",
+			"/config/apps/c12/o", "/id/ggx", "/id/ggx/k", "/config/apps/c12/big/0", "/config/apps/c12/big/1", "/config/apps/c12/nope", "/config/apps/c12/s/x"}
+		k := 2 + g.rng.Intn(3)
+		line := "gg " + bodyOf(doc)
+		for j := 0; j < k; j++ {
+			p := g.rng.Pick(all)
+			if j == 0 && g.rng.Chance(2, 3) {
+				p = g.rng.Pick(all[:4]) // a large value first
+			}
+			line += " " + core.Hex(p)
+		}
+		emit(line)
+	}
 }
